@@ -252,6 +252,19 @@ CHECKS["C12"] = dict(
          "and level it is filed under.",
     design="4/C12")
 
+CHECKS["C15"] = dict(
+    technique="Hypothesis-generated symbolic metrics from a small grammar "
+              "(2-4 dimensions, non-diagonal, coordinate-dependent entries), "
+              "simplify flag and request orders; oracle: independent textbook "
+              "sympy implementation evaluated at random rational points "
+              "(exact for rational metrics), differentials between simplify "
+              "settings and between request orders",
+    text="All ten symbolic quantities are compared with an independent "
+         "implementation per index position and branch (direct vs from "
+         "cached Riemann_uddd), and must not depend on simplify or on what "
+         "was requested before.",
+    design="4/C15")
+
 NOT_YET = "check not built yet in this session (see DESIGN.md section 4)"
 
 
